@@ -450,3 +450,20 @@ def make_case(rng, tid, *, groups=("core",), AND=None, max_rows=8, modes=False):
         cfg["keepUnmatched"] = rng.random() < 0.6
         cfg["noRun"] = rng.random() < 0.1
     return {"tid": tid, "prog": prog, "records": fs.records, "cfg": cfg}
+
+
+def make_group(rng, tid, *, n_members=None, groups=("core",), max_rows=7, modes=False):
+    """1-4 generated csvpaths over one shared generated file (no cross-path functions, no references)"""
+    fs = L.FileSpec(rng, max_rows=max_rows)
+    n = n_members or rng.choice([1, 2, 2, 3, 3, 4])
+    members = []
+    for i in range(n):
+        AND = rng.random() < 0.75
+        g = Gen(rng, fs, AND=AND, groups=groups)
+        prog = g.program(ncomps=rng.choice([1, 2, 2, 3, 4]))
+        cfg = {"AND": AND, "noMatches": False, "keepUnmatched": False, "collecting": True, "noRun": False, "nexts": 0}
+        if modes:
+            cfg["keepUnmatched"] = rng.random() < 0.4
+            cfg["noMatches"] = rng.random() < 0.2
+        members.append({"prog": prog, "cfg": cfg})
+    return {"tid": tid, "records": fs.records, "members": members}
